@@ -3,7 +3,7 @@ import ast
 
 from ..core import Mutant, norm
 from .. import tcp
-from ..names import unbound_names
+from ..names import unbound_names, definite_unbound_locals
 from ..astutil import method_call, unparse, keytext
 from ..index import walk_local
 
@@ -74,7 +74,13 @@ def check(run):
             for nm, node in ub:
                 run.ob("C10.R4", "%s:unbound:%s" % (f.fq, nm), False, run.site(f, node),
                        "name `%s` is bound nowhere: executing this statement raises NameError instead of handling the fault" % nm)
-            if not ub:
+            # a local read on a path that never assigned it raises UnboundLocalError out of the service call (path-sensitive, E3)
+            mb = definite_unbound_locals(run, f, may=True) if handlers else []
+            for nm, node in mb:
+                run.ob("C10.R4", "%s:unassigned-on-some-path:%s" % (f.fq, nm), False, run.site(f, node),
+                       "local `%s` is read here on a path that has not assigned it (e.g. the fault-handling branch binds a different name): "
+                       "UnboundLocalError escapes instead of the fault being handled" % nm)
+            if not ub and not mb:
                 run.ob("C10.R4", "%s:names-bound" % f.fq, True, run.site(f))
     run.floor("C10.R4", 20)
     if run.tier == "thorough":
@@ -83,6 +89,7 @@ def check(run):
 
 
 MUTANTS = [
+    Mutant("clienttls-send-half-renamed-local", C, "ClientTls.send", "            if ex.args[0] in (ssl.SSL_ERROR_WANT_READ, ssl.SSL_ERROR_WANT_WRITE):\n                result = 0", "            if ex.args[0] in (ssl.SSL_ERROR_WANT_READ, ssl.SSL_ERROR_WANT_WRITE):\n                count = 0", {"C10.R4"}),
     Mutant("remoter-drop-econnreset", S, "Remoter.receive", "elif ex.args[0] in (errno.ECONNRESET,\n", "elif ex.args[0] in (\n", {"C10.R1"}, canary=True),
     Mutant("client-cutoff-raises", C, "Client.send", "                self.cutoff = True  # this signals need to close/reopen connection\n                count = 0",
            "                self.cutoff = True  # this signals need to close/reopen connection\n                raise", {"C10.R1"}),
